@@ -132,11 +132,13 @@ impl Check for C18 {
         let g = scn.problems[0].goal.clone();
         scn.problems.push(ProblemSpec { starts: vec![s2], goal: GoalSpec { target: t2, radius: g.radius, sampler: GoalSampler::Fixed, sampler_seed: 0, comp: None, harness_metric: g.harness_metric }, world: 0 , space: None});
         let big = || CallSpec::Solve { timeout_ns: 1_000_000_000_000, stalls: vec![] };
-        scn.calls = match rng.below(5) {
+        scn.calls = match rng.below(6) {
             0 => vec![CallSpec::Setup { problem: 0 }, gen::construct_call(n), big()],
             1 => vec![CallSpec::Setup { problem: 0 }, gen::construct_call(n), gen::construct_call(n + 5), big()],
             2 => vec![CallSpec::Setup { problem: 0 }, gen::construct_call(n), big(), CallSpec::SetProblem { problem: 1 }, big()],
             3 => vec![CallSpec::Setup { problem: 0 }, gen::construct_call(n), CallSpec::SetProblem { problem: 1 }, gen::construct_call(n), big(), CallSpec::SetProblem { problem: 0 }, big()],
+            // a query interrupted in the graph search (time limit 0), then other queries
+            5 => vec![CallSpec::Setup { problem: 0 }, gen::construct_call(n), CallSpec::Solve { timeout_ns: 0, stalls: vec![] }, CallSpec::SetProblem { problem: 1 }, big(), CallSpec::SetProblem { problem: 0 }, big()],
             _ => vec![CallSpec::Setup { problem: 1 }, gen::construct_call(n), big(), big()],
         };
         // a slow query: one validity query of the start-attachment phase takes ten times the
